@@ -13,7 +13,7 @@ export CARGO_NET_OFFLINE=true CARGO_TARGET_DIR=$WT/target
 PKG=rasn-compiler-tests
 [ -f rasn-compiler/tests/seeded_demo.rs ] && PKG=rasn-compiler
 FEAT=""
-grep -q 'cfg(feature = "cli")' SEED/seeded_demo.rs && FEAT="--features cli"
+grep -q 'feature = "cli"' SEED/seeded_demo.rs && FEAT="--features cli"
 git checkout -q -- . 2>/dev/null
 rm -f rasn-compiler/tests/seeded_demo.rs rasn-compiler-tests/tests/seeded_demo.rs
 git checkout -q --detach "$(git -C /repo rev-parse HEAD)" || { echo "cannot move worktree to HEAD"; exit 2; }
